@@ -25,8 +25,8 @@ func longLen(r *Rng, tier string) int {
 	case 3:
 		return r.Range(60000, 70000)
 	case 4:
-		if tier == "thorough" {
-			return 1 << 20
+		if tier == "thorough" || r.Chance(1, 3) {
+			return (1 << 20) + r.Intn(3) - 1 // around 1 MiB, the top of the property's range
 		}
 		return r.Range(100000, 300000)
 	default:
@@ -36,6 +36,9 @@ func longLen(r *Rng, tier string) int {
 
 // placeLong puts the long line first, in the middle or last among short lines
 func placeLong(r *Rng, short []string, long string) ([]string, int) {
+	if r.Chance(1, 6) {
+		return []string{long}, 0 // the long line is the whole input
+	}
 	pos := r.Intn(3)
 	var lines []string
 	idx := 0
@@ -54,7 +57,7 @@ func placeLong(r *Rng, short []string, long string) ([]string, int) {
 }
 
 func suiteLongLines(env *Env, res *Result) {
-	res.Rule = "inputs of the line-oriented commands with one line of 1 B .. 300 KB (1 MiB in the thorough tier; dense around 65536) placed first / in the middle / last, with and without final newline: processYaml, updateRules (function level, compared with the model incl. its scanner limit), format, generate, generate through include / include-except / suffix replacement (CLI); oracle: the command fails loudly or every line after the long one is still accounted for; non-trivial = the long line is >= 65530 bytes; distinct by case hash"
+	res.Rule = "inputs of the line-oriented commands with one line of 1 B .. 1 MiB (dense around 65536 and at 1 MiB) placed first / in the middle / last, with and without final newline: processYaml, updateRules (function level, compared with the model incl. its scanner limit), format, generate, generate through include / include-except / suffix replacement (CLI); oracle: the command fails loudly or every line after the long one is still accounted for; non-trivial = the long line is >= 65530 bytes; distinct by case hash"
 	r := NewRng(env.Seed)
 	n := env.N(40, 300)
 	var corr []CorrCase
@@ -135,6 +138,14 @@ func suiteLongLines(env *Env, res *Result) {
 		if final {
 			text += "\n"
 		}
+		if len(lines) == 1 {
+			short = nil // the long line is the whole input
+		}
+		long50 := long
+		if len(long50) > 50 {
+			long50 = long50[:50]
+		}
+		short = append(append([]string{}, short...), long50) // the long line itself must be accounted for as well
 		switch i % 5 {
 		case 0:
 			cc = append(cc, cliCase{site: "format", tree: Tree{"regex-assembly/942100.ra": text}, args: []string{"regex", "format", "942100"}, must: short, file: "regex-assembly/942100.ra", L: L, idx: idx, final: final, text: text})
@@ -209,6 +220,12 @@ func suiteLongLines(env *Env, res *Result) {
 // the optimiser may factor common prefixes; the tokens used here start with distinct letters,
 // so a token is accounted for when its first two letters still appear together
 func accountedFor(hay string, tok string) bool {
+	if len(tok) < 2 {
+		return strings.Contains(hay, tok)
+	}
+	if strings.Trim(tok, "q") == "" {
+		return strings.Contains(hay, "qq") || strings.Contains(hay, "q{") // the optimiser may print a run as q{n}
+	}
 	return strings.Contains(hay, tok[:2]) || strings.Contains(hay, tok[1:])
 }
 
